@@ -378,7 +378,14 @@ pub fn apply_mutation(t: &Table, l: &Layout, v: &Val, m: &Mutation, pool: &[Vec<
                 class = "digit-overflow";
                 let (path, gi, ei) = bcd[pick(m.sel, bcd.len())].clone();
                 let last = m.bytes.first().copied().unwrap_or(0xee);
-                let digits: Vec<u8> = match m.a % 8 {
+                let digits: Vec<u8> = match m.a % 9 {
+                    // leading digits at MAX / 10 (odd digit counts, F-padded spellings), then an arbitrary last byte
+                    8 => match m.b % 4 {
+                        0 => vec![0x25, last],
+                        1 => vec![0x65, 0x53, last],
+                        2 => vec![0x04, 0x29, 0x49, 0x67, 0x29, last],
+                        _ => vec![0x01, 0x84, 0x46, 0x74, 0x40, 0x73, 0x70, 0x95, 0x51, 0x61, last],
+                    },
                     // ... and of a u128 accumulator
                     7 => vec![0x03, 0x40, 0x28, 0x23, 0x66, 0x92, 0x09, 0x38, 0x46, 0x34, 0x63, 0x37, 0x46, 0x07, 0x43, 0x17, 0x68, 0x21, 0x15 - (m.b % 3) as u8, last],
                     0 | 1 => vec![0x99; 1 + (m.b % 40) as usize],
